@@ -213,8 +213,10 @@ Proof. exact ImpProofsO.imp_ReadNCBI. Qed.
 Print Assumptions C20_read_ncbi_is_source.
 
 Example C20_source_read_example :
-  let o := {| f_parse := [(bs "1", bs "1"); (bs "-2", bs "-2")]; f_fmt := [] |} in
-  ImpGen.imp_smtext_ReadNCBI 9 o (GoSem.Scanner [] [bs "# c"; bs "  A  *"; bs "A 1 -2"; bs "* -2 1"] 0%Z false)
+  let one := [49]%N in let m2 := [45; 50]%N in
+  let o := {| f_parse := [(one, one); (m2, m2)]; f_fmt := [] |} in
+  (* "# c", "  A  *", "A 1 -2", "* -2 1" *)
+  ImpGen.imp_smtext_ReadNCBI 9 o (GoSem.Scanner [] [[35; 32; 99]; [32; 32; 65; 32; 32; 42]; [65; 32; 49; 32; 45; 50]; [42; 32; 45; 50; 32; 49]]%N 0%Z false)
   = GoSem.Ret (GoSem.Scanner [] [] 0%Z true,
-      ([((65, 65), bs "1"); ((65, 255), bs "-2"); ((255, 65), bs "-2"); ((255, 255), bs "1")]%N, 0%Z)).
+      ([((65, 65), one); ((65, 255), m2); ((255, 65), m2); ((255, 255), one)]%N, 0%Z)).
 Proof. vm_compute. reflexivity. Qed.
